@@ -59,6 +59,24 @@ mod httpd {
         pub salt_text: Option<String>,
         /// identifier of the stored (hash, salt) pair in the Coq description of the configuration
         pub cred: u64,
+        /// what is written as `password_hash`: "full" = the hash of (salt_name, password, salt); "empty" = nothing;
+        /// "prefix16" / "prefix63" = its first 16 / 63 characters; "longer" = the hash followed by "00";
+        /// "doubled" = the hash twice; "upper" = the hash in upper-case hexadecimal
+        pub shape: &'static str,
+    }
+
+    /// The text written as `password_hash` for a user whose real hash is `hash`.
+    pub fn shaped(hash: &str, shape: &str) -> String {
+        match shape {
+            "full" => hash.to_string(),
+            "empty" => String::new(),
+            "prefix16" => hash[..16].to_string(),
+            "prefix63" => hash[..63].to_string(),
+            "longer" => format!("{hash}00"),
+            "doubled" => format!("{hash}{hash}"),
+            "upper" => hash.to_uppercase(),
+            other => panic!("harness: unknown hash shape {other}"),
+        }
     }
 
     #[derive(Clone, Debug)]
@@ -130,7 +148,7 @@ mod httpd {
                 let hash = hashes.entry((u.salt_name.clone(), u.password.clone(), salt.clone()))
                     .or_insert_with(|| password_hash(&u.salt_name, &u.password, &salt)).clone();
                 let salt_text = u.salt_text.clone().unwrap_or_else(|| hex::encode(&salt));
-                t += &format!("\"{}\" = {{ password_hash = \"{}\", salt = \"{}\", role = \"{}\" }}\n", u.id, hash, salt_text, u.role);
+                t += &format!("\"{}\" = {{ password_hash = \"{}\", salt = \"{}\", role = \"{}\" }}\n", u.id, shaped(&hash, u.shape), salt_text, u.role);
             }
         }
         t += "\n[auth_roles]\n";
@@ -584,6 +602,14 @@ fn creds_term(spec: &DaemonSpec, norm: &dyn Fn(&str) -> String) -> String {
     coq_list(&items)
 }
 
+/// Entries whose configured password_hash is not the hash itself (AuthToy.hshape).
+fn shapes_term(spec: &DaemonSpec) -> String {
+    let items: Vec<String> = spec.users.iter().filter(|u| u.shape != "full").map(|u| format!("({}, {})", u.cred, match u.shape {
+        "empty" => "HEmpty".to_string(), "prefix16" | "prefix63" => "HPrefix 3".to_string(), "longer" => "HLonger \"00\"".to_string(),
+        "doubled" => "HLonger \"hh\"".to_string(), "upper" => "HUpper".to_string(), other => panic!("harness: unknown hash shape {other}") })).collect();
+    coq_list(&items)
+}
+
 // --------------------------------------------------------------------------------------------------- credentials
 
 #[derive(Clone)]
@@ -934,7 +960,7 @@ fn run(args: &Args) -> i32 {
         RoleDef { name: "peer".into(), how: RoleHow::Builtin("readwrite") },
         RoleDef { name: "nologin".into(), how: RoleHow::Conf { permissions: vec!["ca-list".into(), "ca-read".into(), "ca-update".into(), "routes-update".into()] } },
     ];
-    let user = |cred: u64, id: &str, pw: &str, role: &str| UserDef { id: id.into(), password: pw.into(), role: role.into(), salt_name: id.into(), salt_text: None, cred };
+    let user = |cred: u64, id: &str, pw: &str, role: &str| UserDef { id: id.into(), password: pw.into(), role: role.into(), salt_name: id.into(), salt_text: None, cred, shape: "full" };
     let mut users = vec![user(1, "alice", "pwA", "admin"), user(2, "bob", "pwB", "readwrite"), user(3, "carol", "pwC", "readonly"),
                          user(4, "dave", "pwD", "nologin"), user(5, "erin", "pwE", "ghost"), user(6, zoe_nfc, "pwZ", "readonly"),
                          // an administrator who never logs in (and stays configured after the restart of B)
@@ -963,6 +989,18 @@ fn run(args: &Args) -> i32 {
                     UserDef { salt_name: "carl".into(), ..user(3, carl_fw, "pwC", "readonly") }],
         unix_users: vec![("nobody-c20".into(), "admin".into())], disk: None };
 
+    // G: users whose configured password_hash is not a hash: nothing, cut short, extended, upper-case; gina is the control
+    let admin_g = format!("adm-G-{:08x}", rng.next() as u32);
+    let spec_g = DaemonSpec { dir: out_abs.join("daemon-g"), tag: "g".into(), auth_type: "config-file", admin_token: admin_g.clone(), roles: roles.clone(),
+        users: vec![user(1, "gina", "pwG", "admin"),
+                    UserDef { shape: "empty", ..user(2, "hank", "pwH", "admin") },
+                    UserDef { shape: "prefix16", ..user(3, "ivan", "pwI", "admin") },
+                    UserDef { shape: "prefix63", ..user(4, "judy", "pwJ", "readwrite") },
+                    UserDef { shape: "longer", ..user(5, "karl", "pwK", "admin") },
+                    UserDef { shape: "doubled", ..user(6, "lena", "pwL", "readonly") },
+                    UserDef { shape: "upper", ..user(7, "mona", "pwM", "admin") }],
+        unix_users: vec![("nobody-c20".into(), "admin".into())], disk: None };
+
     // ---- the model's view of the daemons: header of every case file
     let norms_term = coq_list(&norms.iter().map(|(a, b)| format!("({}, {})", cs(a), cs(b))).collect::<Vec<_>>());
     let models = vec![
@@ -972,6 +1010,7 @@ fn run(args: &Args) -> i32 {
         Model { def: "dC".into(), spec: spec_c.clone(), key: 3, prior: "[]".into(), first: None },
         Model { def: "dF".into(), spec: spec_f.clone(), key: 4, prior: "[]".into(), first: None },
         Model { def: "dE".into(), spec: spec_e.clone(), key: 5, prior: "[]".into(), first: None },
+        Model { def: "dG".into(), spec: spec_g.clone(), key: 6, prior: "[]".into(), first: None },
     ];
     let mut header = String::from("From Coq Require Import String.\nFrom KV Require Import base.Tac auth.Perm auth.Routes authn.AuthChain authn.AuthToy authn.AuthCheck.\nOpen Scope string_scope.\nOpen Scope N_scope.\n");
     header += &format!("Definition norms : list (string * string) := {norms_term}.\n");
@@ -979,7 +1018,7 @@ fn run(args: &Args) -> i32 {
         header += &format!("Definition cfg_{} : config := {}.\n", m.def, cfg_term(&m.spec, &perms));
         let first_cfg = match &m.first { Some(f) => cfg_term(f, &perms), None => format!("cfg_{}", m.def) };
         let creds_spec = m.first.as_ref().unwrap_or(&m.spec);
-        header += &format!("Definition {} : daemon := mkDaemon {} false norms {} {} {}.\n", m.def, first_cfg, creds_term(creds_spec, &norm), m.key, m.prior);
+        header += &format!("Definition {} : daemon := mkDaemon {} false norms {} {} {} {}.\n", m.def, first_cfg, creds_term(creds_spec, &norm), m.key, m.prior, shapes_term(creds_spec));
     }
     let footer = "Eval vm_compute in (failing agrees base_index cases).\nEval vm_compute in (failing c20_ok base_index cases).";
     std::fs::write(args.out.join("header.v"), &header).expect("header");
@@ -1328,6 +1367,49 @@ fn run(args: &Args) -> i32 {
     });
     daemon_e.stop();
 
+    // ================================================================== G: configured password_hash texts that are not hashes
+    // Login must succeed iff the hash of the submitted password EQUALS the configured text: never for an empty,
+    // cut-short, extended or upper-case text - with the password of the full hash, the empty password, another
+    // user's password, an invented one, the configured text itself, the full hash as password.
+    {
+        let daemon_g = httpd::start(&spec_g, &mut hashes);
+        rt.block_on(async {
+            let mut cx = Ctx { d: "dG", admin: &admin_g, tcp: Client::new(Endpoint::Tcp(daemon_g.port)), ux: Client::new(Endpoint::Unix(daemon_g.unix_path.clone())),
+                adm: Client::new(Endpoint::Tcp(daemon_g.port)), unix_term: unix_term.clone(), hist_total: 0, scenario: "hash-shape", refused_with_effect: vec![] };
+            ensure_ca(&mut cx.adm, &admin_g, "ca1").await;
+            cx.hist_total = history_from(&mut cx.adm, &admin_g, "ca1", 0).await.0;
+            let mut seen = Vec::new();
+            for u in &spec_g.users {
+                let salt: Vec<u8> = (0..16u8).map(|k| k.wrapping_mul(11).wrapping_add(u.cred as u8)).collect();
+                let full = hashes.get(&(u.salt_name.clone(), u.password.clone(), salt)).cloned().expect("harness: hash of a configured user");
+                let configured = httpd::shaped(&full, u.shape);
+                let mut pws: Vec<(String, &'static str)> = vec![(u.password.clone(), "password-of-the-full-hash"), (String::new(), "empty-password"),
+                    ("pwG".to_string(), "password-of-another-user"), ("no-such-password".to_string(), "invented-password"), (full.clone(), "full-hash-as-password")];
+                if !configured.is_empty() && configured != full { pws.push((configured.clone(), "configured-text-as-password")); }
+                let mut done: BTreeSet<String> = BTreeSet::new();
+                for (p, kind) in pws {
+                    if !done.insert(p.clone()) { continue }
+                    let (st, ans) = do_login(&mut cx.tcp, Some(&httpd::basic(u.id.as_bytes(), p.as_bytes()))).await;
+                    let class: &'static str = match (u.shape, st == 200) { ("full", _) => "hash-shape-full", (_, false) => "hash-shape-not-a-hash", (_, true) => "hash-shape-not-a-hash-accepted" };
+                    let what = format!("user whose configured password_hash is {} ({} characters), {kind}", match u.shape { "full" => "the hash of the password", "empty" => "empty",
+                        "prefix16" => "the first 16 characters of the hash", "prefix63" => "the first 63 characters of the hash", "longer" => "the hash followed by 00", "doubled" => "the hash twice", _ => "the hash in upper case" }, configured.len());
+                    seen.push(json!({"user": u.id, "configured_hash": u.shape, "configured_length": configured.len(), "password": kind, "status": st}));
+                    *rec.login_hist.entry(format!("hash-shape:{}:{kind}:{st}", u.shape)).or_default() += 1;
+                    rec.login("dG", "Tcp", Some((&u.id, &p)), &none, st, ans.clone().map(|(_, i, r)| (i, r)), class, &what, "hash-shape");
+                    if let Some((tokg, _, _)) = ans {
+                        // whatever was handed out is presented as well
+                        let c = Cred { coq: format!("(CToken dG {} {})", cs(&u.id), cs(&p)), header: Some(bearer(&tokg)), class: "token", what: format!("session token answered to the login of {} with {kind}", u.id) };
+                        cx.quick_probes(&mut rec, &c).await;
+                    }
+                }
+            }
+            observations.insert("hash_shape_logins".into(), json!(seen));
+            requests_total += cx.tcp.sent + cx.ux.sent + cx.adm.sent;
+            impl_failures.extend(cx.refused_with_effect.drain(..));
+        });
+        daemon_g.stop();
+    }
+
     // ================================================================== F (regression F20b): names with the same normal form
     if f20b {
         let daemon_f = httpd::start(&spec_f, &mut hashes);
@@ -1363,7 +1445,7 @@ fn run(args: &Args) -> i32 {
     let stats = json!({
         "evaluations": evaluations,
         "distinct_nontrivial": rec.distinct.len(),
-        "rule": "one case per probe. Request probes: a credential x transport (TCP, Unix socket) x route. Credentials: none; the admin token; session tokens of four users; those with blanks around; headers the daemon does not read as a bearer; a logged-out token; tokens derived from two valid ones by truncation (17+ cuts), single-bit flips of the base64 text (every bit of every character of one token; of a second token a seeded sample, thorough: of three more tokens every bit), re-encodings (padding removed / added, URL-safe alphabet, blanks or a tab inside, percent-encoding, every combination of stray trailing bits), extensions; invented strings (fixed list, base64 of random bytes, a session in clear behind a zero nonce and tag), near misses of the admin token; tokens and admin token of a second instance with another key; tokens of a first life presented after a restart with an edited configuration (user unchanged / removed / demoted); a daemon whose unix_users table is explicitly empty and one whose table does not contain the harness's system user, probed over the socket without bearer, with wrong, damaged and foreign bearers (nobody may be authenticated) and with genuine ones; logins and tokens of two users whose names have the same normal form; the nonce of the first token after a restart against the nonce of the first token of the first life (a repeated nonce is turned into a forged admin token and presented). Every credential gets GET /api/v1/authorized and a state-changing POST /api/v1/cas/ca1/routes (whose audit actor is read back from the CA history) on both transports; representatives of every class get a sweep over every route of the table regenerated by t_routes.py (thorough: more representatives per class). Login probes: every configured user with the right password, wrong passwords, unknown users, names differing by case / blanks / NFC-NFD / compatibility characters, malformed Basic headers, seeded name x password pairs. Non-trivial: a request probe on a route with a gate that carries some credential, or a login probe; distinct by (daemon, transport, header bytes, method, path) resp. (daemon, name, password).",
+        "rule": "one case per probe. Request probes: a credential x transport (TCP, Unix socket) x route. Credentials: none; the admin token; session tokens of four users; those with blanks around; headers the daemon does not read as a bearer; a logged-out token; tokens derived from two valid ones by truncation (17+ cuts), single-bit flips of the base64 text (every bit of every character of one token; of a second token a seeded sample, thorough: of three more tokens every bit), re-encodings (padding removed / added, URL-safe alphabet, blanks or a tab inside, percent-encoding, every combination of stray trailing bits), extensions; invented strings (fixed list, base64 of random bytes, a session in clear behind a zero nonce and tag), near misses of the admin token; tokens and admin token of a second instance with another key; tokens of a first life presented after a restart with an edited configuration (user unchanged / removed / demoted); a daemon whose unix_users table is explicitly empty and one whose table does not contain the harness's system user, probed over the socket without bearer, with wrong, damaged and foreign bearers (nobody may be authenticated) and with genuine ones; logins and tokens of two users whose names have the same normal form; the nonce of the first token after a restart against the nonce of the first token of the first life (a repeated nonce is turned into a forged admin token and presented). Every credential gets GET /api/v1/authorized and a state-changing POST /api/v1/cas/ca1/routes (whose audit actor is read back from the CA history) on both transports; representatives of every class get a sweep over every route of the table regenerated by t_routes.py (thorough: more representatives per class). Login probes: every configured user with the right password, wrong passwords, unknown users, names differing by case / blanks / NFC-NFD / compatibility characters, malformed Basic headers, seeded name x password pairs; a daemon with users whose configured password_hash is the hash (control), empty, the first 16 / 63 characters of the hash, the hash followed by 00, the hash twice, the hash in upper case - each with the password of the full hash, the empty password, another user's password, an invented one, the full hash and the configured text as password (login must succeed iff the hash of the submitted password equals the configured text). Non-trivial: a request probe on a route with a gate that carries some credential, or a login probe; distinct by (daemon, transport, header bytes, method, path) resp. (daemon, name, password).",
         "samples": rec.samples,
         "status_by_credential_class_distribution": rec.status_by_class,
         "credential_class_distribution": rec.class_hist,
